@@ -577,4 +577,8 @@ theorem Ev.cnt_drop_pos {q : List Entry} {f : Nat} (h : 0 < cnt (Ev.drop q f)) :
     exact (cnt_pos_iff _).mpr ⟨e, he, hne⟩
   · exact Nat.lt_of_lt_of_le h (Ev.cnt_erase_le q f)
 
+theorem wakeOK_of_except_nohas {f : Nat} {q : List Entry} {w : List Nat} (h : WakeOKExcept f q w)
+    (hn : Ev.has q f = false) : WakeOK q w :=
+  fun e he hne => h e he hne (Ev.has_false_iff.mp hn e he)
+
 end ALock
